@@ -40,6 +40,7 @@ import json
 import os
 import shutil
 import tempfile
+import time
 import traceback
 import warnings
 
@@ -1436,7 +1437,7 @@ def suite_text(chk, model, tmp, fmt_name, code, suite):
     def read(path):
         with open(path, encoding="utf-8", errors="replace", newline=None) as f:
             return f.read()
-    for i in range(chk.n(350, 4000)):
+    for i in range(chk.n(350, 2500)):
         c = gen_file_case(rng, tmp, "t%d" % i, fmts=[FMT_BY_NAME[fmt_name]],
                           extra="random" if fmt_name == "dtd" else None,
                           bom=fmt_name == "dtd" and rng.random() < 0.2)
@@ -1544,8 +1545,10 @@ def run(chk, runner_ok):
                             (suite_file, (tmp,)), (suite_lint, (tmp,)),
                             (suite_inc_sequence, (tmp,)), (suite_project, (tmp,)),
                             (suite_props_text, (tmp,))):
+            t_suite = time.time()
             try:
                 suite(chk, model, *args)
+                chk.notes.append("suite %s: %.1f s" % (suite.__name__, time.time() - t_suite))
             except Exception:  # noqa: a suite that cannot run is a failed check, not a crash
                 chk.fail("suite-crashed-" + suite.__name__, {"suite": suite.__name__},
                          traceback.format_exc()[-1500:])
